@@ -511,7 +511,20 @@ def data_module():
         for name in G.STRUCT_ARRAYS:
             for idx, sval in sorted(env[name].items()):
                 put_struct(f"{name}({idx[0]})", sval)
-    out += ["end select", "end subroutine setvals", "end module c02_data"]
+    out += ["end select", "end subroutine setvals",
+            # results of one group: printed here so that the batches
+            # contain no I/O statement at all (expensive to compile)
+            "subroutine c02_print(g, n, v, st, vi, vr, vl)",
+            "integer, intent(in) :: g, n, v, st(n)",
+            "integer(kind=8), intent(in) :: vi(n)",
+            "real(kind=8), intent(in) :: vr(n)",
+            "logical, intent(in) :: vl(n)", "integer :: j",
+            "do j = 1, n", "select case (st(j))", "case (1)",
+            "write(*,'(I0,1X,I0,1X,I0,1X,I0)') g, j, v, vi(j)", "case (2)",
+            "write(*,'(I0,1X,I0,1X,I0,1X,ES24.16E3)') g, j, v, vr(j)",
+            "case (3)", "write(*,'(I0,1X,I0,1X,I0,1X,L1)') g, j, v, vl(j)",
+            "end select", "end do", "end subroutine c02_print",
+            "end module c02_data"]
     return out
 
 
@@ -593,20 +606,13 @@ class GfRunner:
                       f"integer(kind=8) :: vi({dim})",
                       f"real(kind=8) :: vr({dim})",
                       f"logical :: vl({dim})",
-                      f"integer :: st({dim}), j", "st = 0"]
+                      f"integer :: st({dim})", "st = 0"]
             for text, mark in body:
                 lines.append(text)
                 if mark is not None:
                     where[len(lines)] = mark
-            lines += [
-                f"do j = 1, {nslot}", "select case (st(j))", "case (1)",
-                f"write(*,'(I0,1X,I0,1X,I0,1X,I0)') {gno}, j, v, vi(j)",
-                "case (2)",
-                f"write(*,'(I0,1X,I0,1X,I0,1X,ES24.16E3)') {gno}, j, v, "
-                f"vr(j)", "case (3)",
-                f"write(*,'(I0,1X,I0,1X,I0,1X,L1)') {gno}, j, v, vl(j)",
-                "end select", "end do",
-                f"end subroutine ev_{gno}"]
+            lines += [f"call c02_print({gno}, {dim}, v, st, vi, vr, vl)",
+                      f"end subroutine ev_{gno}"]
         lines += ["end module c02_ev", "program c02_main", "use c02_data",
                   "use c02_ev", "implicit none", "integer :: v, g, g0, g1",
                   "character(len=16) :: arg",
